@@ -64,7 +64,7 @@ pub open spec fn cbs_ticks(l: Seq<char>) -> Seq<char> { cbs(l).unwrap().0 }
 pub open spec fn cbs_lang(l: Seq<char>) -> Seq<char> { cbs(l).unwrap().1 }
 pub open spec fn cbs_cfg(l: Seq<char>) -> Seq<char> { cbs(l).unwrap().2 }
 pub open spec fn dashes() -> Seq<char> { seq!['-', '-', '-'] }
-pub open spec fn lang_in(langs: Seq<&str>, l: Seq<char>) -> bool { exists|k: int| 0 <= k < langs.len() && (#[trigger] langs[k])@ == l }
+pub open spec fn lang_in(langs: Seq<Seq<char>>, l: Seq<char>) -> bool { exists|k: int| 0 <= k < langs.len() && #[trigger] langs[k] == l }
 pub open spec fn is_comment_line(l: Seq<char>) -> bool { l.len() > 0 && l[0] == '#' }
 /// v lists lines[from .. from+|v|) with their 0-based document line numbers
 pub open spec fn numbered(v: Seq<(usize, String)>, lines: Seq<Seq<char>>, from: int, first_number: int) -> bool {
@@ -77,7 +77,7 @@ pub open spec fn config_ok(v: Seq<(usize, String)>, cfg: Seq<char>, number: int)
     } else { v.len() == 0 }
 }
 /// the token `t` accounts for exactly the consumed lines `ls` (document lines number .. number+|ls|)
-pub open spec fn token_ok(t: MarkdownToken, ls: Seq<Seq<char>>, number: int, content_started: bool, langs: Seq<&str>) -> bool {
+pub open spec fn token_ok(t: MarkdownToken, ls: Seq<Seq<char>>, number: int, content_started: bool, langs: Seq<Seq<char>>) -> bool {
     let k = ls.len();
     match t {
         MarkdownToken::Line(i, s) =>
